@@ -33,12 +33,14 @@ def partitions(N, rng, k, B=1):
     return out[:k]
 
 
-def c07_scenarios(S, fmt, ch, rate, N, rng, nparts, Ts=None):
+def c07_scenarios(S, fmt, ch, rate, N, rng, nparts, Ts=None, late_max=False):
     B = scen.block_hint(fmt, ch, rate)
     for T in (Ts or [gen_core.type_for(fmt)]):
         lc = scen.lossless_class(fmt, T)
         cls, par = lc if lc else ("noise", 0)
         seed = rng.randint(1, 10 ** 6)
+        if late_max and T in "si":
+            cls, par, seed = "ramp", 0, rng.randint(1, 90)          # rising integers: the maximum is the last item written
         sid = S.scn(fmt="0x%x" % fmt, ch=ch, T=T, N=N, kind="c07", ckey="c07_%d" % (S.n + 1))
         rt = scen.route_for(fmt)
         fid = 0
@@ -375,7 +377,12 @@ def c13_scenario(S, fmt, ch, rate, rng, count, ids, payloads, late=False, shortb
                 pl = None
                 S.add("chget 1 0 %d" % rng.choice([0, 1, 3]))
             S.add("chget 1 0 -1", "chnext 1 0")
-    S.add("chnext 1 0", "chget 1 0 -1", "seek 1 0 0", "read 1 %s f 3" % T, "close 1")
+    S.add("chnext 1 0", "chget 1 0 -1")
+    # a by-id iterator left unexhausted, then a fresh unfiltered one: it must visit every chunk again
+    S.add("chit 1 0 %s" % hexs(chunks[0][0] if chunks else b"ZZZZ"), "chget 1 0 -1", "chit 1 0 null")
+    for k in range(count + 12):
+        S.add("chget 1 0 -1", "chnext 1 0")
+    S.add("seek 1 0 0", "read 1 %s f 3" % T, "close 1")
 
 
 def c18_scenario(S, fmt, ch, rate, rng, N, layout, nparts, rdwr=False):
